@@ -253,6 +253,10 @@ def run(ctx):
     ctx.run_rule("L11", lambda c: rule_auto_flush(c, f, "L11"))
     from . import controls
     ctx.run_rule("L10", lambda c: controls.control_leak_and_instant(c, "L10", "forget"))
+    from pvrules import witness
+    ctx.run_rule("L13", lambda c: witness.rule_witnesses(c, "L13", "c12_", 4))
+    ctx.run_rule("L12", lambda c: controls.rule_no_manual_send_sync(c, f, "L12", "local metrics are exact only because one thread at a time can reach them (`&self` methods on RefCell / plain "
+                                                                            "fields): a shared reference from two threads makes `+=` on the pending value a lost update"))
     if ctx.tier == "thorough":
         g = ctx.facts("plain")
         ctx.run_rule("L1@plain", lambda c: lc.rule_local_counter(c, g, "L1@plain"))
